@@ -31,3 +31,10 @@ func VerifSmudge(to io.Writer, from io.Reader, fileName string, skip bool) (int6
 	filter := filepathfilter.New(cfg.FetchIncludePaths(), cfg.FetchExcludePaths(), filepathfilter.GitIgnore)
 	return smudge(lfs.NewGitFilter(cfg), to, from, fileName, skip, filter)
 }
+
+// VerifFilterProcess runs the filter-process command body; the standard
+// streams come from verifhook.StdioFn.
+func VerifFilterProcess(skip bool) {
+	filterSmudgeSkip = skip
+	filterCommand(nil, nil)
+}
